@@ -5,7 +5,7 @@ cd /verif
 IDS="$@"; [ -z "$IDS" ] && IDS=$(ls seeded)
 for id in $IDS; do
   p=$(echo $id | cut -c1-3)
-  git -C /repo apply seeded/$id/patch.diff || { echo "$id: patch does not apply"; continue; }
+  git -C /repo apply /verif/seeded/$id/patch.diff || { echo "$id: patch does not apply"; continue; }
   out=$(timeout 1200 bin/check $p quick 2>/dev/null | grep -E "^VIOLATION" | grep -v no-failing-input-found | head -1)
   git -C /repo checkout -- .
   if [ -n "$out" ]; then echo "$id: caught by $p"; else echo "$id: NOT caught by $p"; fi
